@@ -1,5 +1,6 @@
 //! vmon — in-process runtime monitors for ast-grep (see /verif/DESIGN.md).
 mod corpus;
+mod gen;
 mod mon;
 mod refsem;
 mod report;
